@@ -1,6 +1,7 @@
 package mon
 
 import (
+	"crypto/tls"
 	"net"
 	"path/filepath"
 	"os"
@@ -350,22 +351,35 @@ func c15RealSockets(w *core.W, g *model.Gen, zone model.Name, j int) {
 		return
 	}
 	defer os.RemoveAll(dir)
-	for ni, network := range []string{"unix", "tcp"} {
+	// "tcp-self" and "tls-self": the Transfer value carries no connection, In dials the address itself (over
+	// TLS when the TLS field is set) and owns the connection it made
+	srvTLS, cliTLS := c13TLS()
+	for ni, network := range []string{"unix", "tcp", "tcp-self", "tls-self"} {
 		addr := "127.0.0.1:0"
 		if network == "unix" {
 			addr = filepath.Join(dir, "xfr.sock")
 		}
-		ln, lerr := net.Listen(network, addr)
+		self := strings.HasSuffix(network, "-self")
+		lnet := network
+		if self {
+			lnet = "tcp"
+		}
+		ln, lerr := net.Listen(lnet, addr)
 		if lerr != nil {
 			w.Inconclusive("c15-listen-" + network)
 			continue
+		}
+		if network == "tls-self" {
+			ln = tls.NewListener(ln, srvTLS)
 		}
 		for kind := 0; kind < 4; kind++ {
 			st := c15MakeStream(g, zone, kind)
 			for ci, comp := range []uint64{^uint64(0), 0, 1 << uint((len(st.recs)-1)/2)} {
 				envs := compose(st.recs, comp)
 				q := st.query(zone, uint16(7000+j+ni*100+kind*10+ci))
+				hungUp := make(chan struct{})
 				go func() { // the primary
+					defer close(hungUp)
 					c, err := ln.Accept()
 					if err != nil {
 						return
@@ -388,13 +402,28 @@ func c15RealSockets(w *core.W, g *model.Gen, zone model.Name, j int) {
 					}
 					io.Copy(io.Discard, c) // until the secondary hangs up
 				}()
-				c, cerr := net.Dial(network, ln.Addr().String())
-				if cerr != nil {
-					w.Inconclusive("c15-dial-" + network)
-					continue
+				var c net.Conn = nopConn{}
+				var tr *dns.Transfer
+				target := "unused"
+				if self {
+					tr = &dns.Transfer{ReadTimeout: 5 * time.Second, DialTimeout: 5 * time.Second}
+					if network == "tls-self" {
+						tr.TLS = cliTLS
+					}
+					if ci == 1 {
+						tr.DialTimeout = 0 // the default
+					}
+					target = ln.Addr().String()
+				} else {
+					var cerr error
+					c, cerr = net.Dial(network, ln.Addr().String())
+					if cerr != nil {
+						w.Inconclusive("c15-dial-" + network)
+						continue
+					}
+					tr = &dns.Transfer{Conn: &dns.Conn{Conn: c}, ReadTimeout: 5 * time.Second}
 				}
-				tr := &dns.Transfer{Conn: &dns.Conn{Conn: c}, ReadTimeout: 5 * time.Second}
-				ch, ierr := tr.In(q, "unused")
+				ch, ierr := tr.In(q, target)
 				w.Eval(1)
 				w.Count("real_socket_transfers_"+network, 1)
 				var sizes []int
@@ -422,6 +451,16 @@ func c15RealSockets(w *core.W, g *model.Gen, zone model.Name, j int) {
 						}
 					}
 				})
+				// the transfer ends "closing channel and connection": the primary sees the secondary hang up
+				// without anybody but the library touching the connection
+				if finished && firstErr == nil {
+					select {
+					case <-hungUp:
+						w.Count("real_socket_connections_closed_by_the_library", 1)
+					case <-time.After(c13Watch):
+						w.Violation("C15/real-socket/connection-left-open/"+network+"/"+st.kind, fmt.Sprintf("envelope sizes %v: the channel was closed at the closing SOA, the connection was still open %v later", sizes, c13Watch), wit)
+					}
+				}
 				c.Close()
 				switch {
 				case !finished:
@@ -1073,3 +1112,8 @@ func init() {
 		MinObserved: []string{"transfers_good", "transfers_faulty", "compositions", "exhaustive_eof_sweeps"},
 	})
 }
+
+// nopConn stands in for the connection of transfers that dial for themselves.
+type nopConn struct{ net.Conn }
+
+func (nopConn) Close() error { return nil }
